@@ -6,6 +6,7 @@ fixed payload with a predicate at least as strong as the validator's).
 """
 from __future__ import annotations
 
+import re
 from typing import Any, Dict, FrozenSet, List, Optional, Set, Tuple
 
 from ..automaton import Outcome, Shape, TypeAutomaton, build
@@ -38,6 +39,7 @@ def check(run: Run, prog: Program, model: Model, tier: str) -> None:
     run.explanation += " VALCHK-KIND: every kind the declaration admits for the fixed value (isinstance guards of the refinement, minus excluded kinds) is handed to the validator as declared and validated value; no path may build a TypeValidationError. Format specs ({x:d}) are partial operations under the operand's kind."
     run.explanation += ' VALCHK-SELF: with the declared value handed to the validator as value and as props.value, every error other than a reflexive value comparison has a deciding predicate that every accepting path of __call__ rules out. OPERATORS: declaration.union on a schema and on a definitely-non-schema operand.'
     run.explanation += ' VALCHK-ELEMENTS: ListSchema([]).len / min_len / max_len are judged against the zero fixed members (an empty element list is not `no elements declared`).'
+    run.explanation += ' VALCHK-ELEMENTS also refuses an accepting path on which a member schema is taken for the `...` marker (a test by ==, which a schema operand answers by validating).'
     run.rule_text = ("obligations: (type, state, shape) transitions for the escape rule; (type, state, shape) with "
                      "overlap for REDECLARE; (type, prop, validator row) for VALCHK; non-trivial = transitions with at "
                      "least one partial operation or value predicate")
@@ -304,7 +306,14 @@ def _valchk_list_shapes(run: Run, prog: Program, model: Model, tier: str) -> Non
             site = st.cls.methods["len"].loc
             c = f"ListSchema([{', '.join('S' for _ in range(n))}]).{sh.label}: the length is checked against the {n} fixed member(s)"
             free = [o for o in acc if not any("len." in k for k, _ in o.preds)]
-            if free:
+            # a member that is a schema is NOT the `...` marker: a path that takes one for it (a test by `==`, which for a
+            # schema operand is the package's validating __eq__ and is true for a bare schema.any) counts fewer members
+            confused = sorted({k for o in acc for k, b in o.preds if b and re.search(r"eq\(\.\.\., S\d+\)|eq\(S\d+, \.\.\.\)", k)})
+            if confused:
+                run.violated("VALCHK-ELEMENTS", c, site, f"an accepting path takes a member schema for the `...` marker ({confused[0][:60]}): whether "
+                             "an element is the marker is decided by `==`, which a schema operand answers by validating `...`",
+                             witness="schema.list([schema.int(1), schema.any]).len(1) is accepted although two elements are fixed")
+            elif free:
                 run.violated("VALCHK-ELEMENTS", c, site, "an accepting path never compares the length argument with the number of fixed members",
                              witness=f"schema.list([{', '.join('schema.int' for _ in range(n))}]).{sh.label} is accepted for any length: "
                                      "the schema's own element list does not validate against it")
@@ -580,4 +589,11 @@ MUTANTS += [
                ('d42/declaration/types/_list_schema.py', '\n        return self.__class__(self.props.update(elements=list(elements_or_type)))\n\n    def __declare_len(self, props: ListProps, length: Any) -> ListProps:\n        if not isinstance(length, int):\n            raise make_invalid_type_error(self, length, (int,))\n\n        if props.elements is not Nil:\n            concrete_elements = [x for x in props.elements if not is_ellipsis(x)]\n            if len(props.elements) == len(concrete_elements):\n                if length != len(concrete_elements):\n                    raise make_incorrect_len_error(self, concrete_elements, length)\n            else:\n', '\n        return self.__class__(self.props.update(elements=list(elements_or_type)))\n\n    def __concrete_elements(self,\n                            props: ListProps) -> Nilable[Tuple[List[GenericSchema], bool]]:\n        elements = props.elements\n        if (elements is Nil) or (len(elements) == 0):\n            return Nil\n        # `...` can only be the first and/or the last element (see __call__)\n        start = 1 if is_ellipsis(elements[0]) else 0\n        stop = -1 if is_ellipsis(elements[-1]) else len(elements)\n        concrete_elements = elements[start:stop]\n        return concrete_elements, len(concrete_elements) < len(elements)\n\n    def __declare_len(self, props: ListProps, length: Any) -> ListProps:\n        if not isinstance(length, int):\n            raise make_invalid_type_error(self, length, (int,))\n\n        declared = self.__concrete_elements(props)\n        if declared is not Nil:\n            concrete_elements, has_ellipsis = declared\n            if not has_ellipsis:\n                if length != len(concrete_elements):\n                    raise make_incorrect_len_error(self, concrete_elements, length)\n            else:\n'),
                ('d42/declaration/types/_list_schema.py', '        if not isinstance(min_length, int):\n            raise make_invalid_type_error(self, min_length, (int,))\n\n        if props.elements is not Nil:\n            concrete_elements = [x for x in props.elements if not is_ellipsis(x)]\n            if min_length > len(concrete_elements):\n                raise make_incorrect_min_len_error(self, concrete_elements, min_length)\n\n', '        if not isinstance(min_length, int):\n            raise make_invalid_type_error(self, min_length, (int,))\n\n        declared = self.__concrete_elements(props)\n        if declared is not Nil:\n            concrete_elements, _ = declared\n            if min_length > len(concrete_elements):\n                raise make_incorrect_min_len_error(self, concrete_elements, min_length)\n\n'),
                ('d42/declaration/types/_list_schema.py', '        if not isinstance(max_length, int):\n            raise make_invalid_type_error(self, max_length, (int,))\n\n        if props.elements is not Nil:\n            concrete_elements = [x for x in props.elements if not is_ellipsis(x)]\n            if max_length < len(concrete_elements):\n                raise make_incorrect_max_len_error(self, concrete_elements, max_length)\n\n', '        if not isinstance(max_length, int):\n            raise make_invalid_type_error(self, max_length, (int,))\n\n        declared = self.__concrete_elements(props)\n        if declared is not Nil:\n            concrete_elements, _ = declared\n            if max_length < len(concrete_elements):\n                raise make_incorrect_max_len_error(self, concrete_elements, max_length)\n\n')]},
+]
+
+# round 8: the seeded changes that were missed on first contact, replayed against the current tree
+MUTANTS += [
+    {"name": 'seeded C10-P', "rule": 'VALCHK-ELEMENTS',
+     "edits": [('d42/declaration/_is_ellipsis.py', 'from typing import TYPE_CHECKING, Any, TypeVar, Union\n\n__all__ = ("is_ellipsis", "EllipsisType", "TypeOrEllipsis",)\n\nif TYPE_CHECKING:\n    import builtins\n    EllipsisType = builtins.ellipsis\nelse:\n', 'import sys\nfrom typing import TYPE_CHECKING, Any, TypeVar, Union\n\n__all__ = ("is_ellipsis", "EllipsisType", "TypeOrEllipsis",)\n\nif sys.version_info >= (3, 10):\n    from types import EllipsisType\nelif TYPE_CHECKING:\n    import builtins\n    EllipsisType = builtins.ellipsis\nelse:\n'),
+               ('d42/declaration/_is_ellipsis.py', '\n\ndef is_ellipsis(value: Any) -> bool:\n    return isinstance(value, type(...))\n\n\n_T = TypeVar("_T")\n', '\n\ndef is_ellipsis(value: Any) -> bool:\n    # Ellipsis is a singleton, no need to go through its (unnamed before 3.10) type\n    return bool(value == Ellipsis)\n\n\n_T = TypeVar("_T")\n')]},
 ]
